@@ -233,6 +233,16 @@ def _nn_eq(I, st, fid, bi, a, c, t):
     return cmp('eq', deref(I, st, a[0]), deref(I, st, a[1]))
 
 
+@model('<core::ptr::non_null::NonNull<T> as core::cmp::PartialEq>::ne', 'core::cmp::PartialEq::ne')
+def _nn_ne(I, st, fid, bi, a, c, t):
+    # `a != b` on pointers / NonNull: the provided `ne` is `!eq`
+    p = c.get('path') or ''
+    rp = (c.get('resolved') or {}).get('path') or p
+    if 'NonNull' in rp or 'NonNull' in ' '.join(c.get('gargs') or []):
+        return neg(cmp('eq', deref(I, st, a[0]), deref(I, st, a[1])))
+    return None
+
+
 @model('core::ptr::slice_from_raw_parts_mut', 'core::ptr::slice_from_raw_parts', 'core::slice::raw::from_raw_parts', 'core::slice::raw::from_raw_parts_mut',
        'core::ptr::non_null::NonNull::<[T]>::slice_from_raw_parts')
 def _slice_parts(I, st, fid, bi, a, c, t):
@@ -433,6 +443,29 @@ def _opt_map(I, st, fid, bi, a, c, t):
     return _opt_cases(I, st, fid, bi, a[0], 'Some', lambda s, p: some(_callf(I, fid, bi, a[1], [])(s, p)), lambda s: NONE, 'map')
 
 
+@model('core::option::Option::<T>::filter')
+def _opt_filter(I, st, fid, bi, a, c, t):
+    # opt.filter(pred): Some(x) stays Some(x) exactly when pred(&x); the two outcomes carry the truth of the predicate
+    def on_some(s, p):
+        r = _callf(I, fid, bi, a[1], [])(s, p)
+        if r == ('never',):
+            return r
+        if is_c(r):
+            return some(p) if r[1] else NONE
+        sa = s.copy()
+        sa.facts |= I.truth(sa, r, True)
+        sb = s.copy()
+        sb.facts |= I.truth(sb, r, False)
+        if ('false',) in sa.facts:
+            I.adopt(s, sb)
+            return NONE
+        if ('false',) in sb.facts:
+            I.adopt(s, sa)
+            return some(p)
+        return I.join2(s, fid, bi, 'filter', (sa, some(p)), (sb, NONE))
+    return _opt_cases(I, st, fid, bi, a[0], 'Some', on_some, lambda s: NONE, 'filter_outer')
+
+
 @model('core::option::Option::<T>::and_then')
 def _opt_and_then(I, st, fid, bi, a, c, t):
     return _opt_cases(I, st, fid, bi, a[0], 'Some', lambda s, p: _callf(I, fid, bi, a[1], [])(s, p), lambda s: NONE, 'and_then')
@@ -597,6 +630,23 @@ def _find_map(I, st, fid, bi, a, c, t):
     src = deref(I, st, a[0]) if a[0][0] == 'addr' else a[0]
     if src[0] == 'agg' and src[1] == 'iter:FromFn':
         return _first_mapped(I, st, fid, bi, agg('iter:FilterMap', '', (('iter', src), ('f', a[1]))), t)
+    return None
+
+
+@model('core::iter::traits::iterator::Iterator::for_each')
+def _for_each(I, st, fid, bi, a, c, t):
+    # iter::from_fn(g).for_each(f): one generic iteration of `while let Some(x) = g() { f(x) }` (captured &mut state havocked first)
+    src = a[0]
+    if src[0] == 'agg' and src[1] == 'iter:FromFn' and len(a) > 1:
+        g = field_of(src, 'f')
+        f = a[1]
+        _havoc_captures(I, st, g)
+        _havoc_captures(I, st, f)
+        gx = I.apply_callable(st, fid, bi, g, UNIT)
+        if gx == ('never',):
+            return ('never',)
+        _opt_cases(I, st, fid, bi, gx, 'Some', lambda s, p: I.apply_callable(s, fid, bi, f, agg('tuple', '', (('0', p),))), lambda s: UNIT, 'for_each')
+        return UNIT
     return None
 
 
